@@ -144,19 +144,19 @@ theorem C10_admissible_complete (cfg : Cfg) (ctxTTL : Int) (rn rd : Nat) (t0 t1 
   · obtain ⟨h0', hu⟩ := hne
     simp [ttlOf, expireAt, Gen.ttlIsDefault, Gen.cfgIsUnlimited, Gen.expireAtNonZero, h0', hu]
   · have hT' := hT hne
-    have hcond : (Gen.ttlIsDefault ctxTTL && Gen.cfgIsUnlimited cfg.ttl) = false := by
-      simp only [Gen.ttlIsDefault, Gen.cfgIsUnlimited, Bool.and_eq_false_iff, beq_eq_false_iff_ne, ne_eq]
+    have hcond : (ctxTTL == 0 && cfg.ttl == -1) = false := by
+      simp only [Bool.and_eq_false_iff, beq_eq_false_iff_ne, ne_eq]
       by_cases h0 : ctxTTL = 0
       · right; exact fun h => hne ⟨h0, h⟩
       · left; exact h0
-    have hTeq : (if Gen.ttlIsDefault ctxTTL = true then cfg.ttl else ctxTTL) = effTTL cfg ctxTTL := by
-      simp [Gen.ttlIsDefault, effTTL]
+    have hTeq : (if (ctxTTL == 0) = true then cfg.ttl else ctxTTL) = effTTL cfg ctxTTL := by
+      simp [effTTL]
     simp only [hcond, Bool.false_eq_true, if_false, hTeq]
     by_cases hjn : 0 < cfg.jn
     · have hjo : Gen.jitterOn cfg.jn = true := by simp [Gen.jitterOn]; omega
       have ⟨hE, hnz, hb⟩ := C10_bounds cfg ctxTTL rn rd now hne hT' hjn hjd hj1 hr
       have hk := C10_jitter_keeps_nonzero cfg (effTTL cfg ctxTTL) rn rd hT' hjn hjd hj1 hr
-      simp only [hjo, if_true]
+      rw [if_pos (show cfg.jn > 0 from hjn)]
       rw [hE] at hb ⊢
       have hd : (now + effTTL cfg ctxTTL + jitterDelta cfg (effTTL cfg ctxTTL) rn rd - (now + effTTL cfg ctxTTL))
           = jitterDelta cfg (effTTL cfg ctxTTL) rn rd := by omega
@@ -195,7 +195,7 @@ theorem C10_admissible_complete (cfg : Cfg) (ctxTTL : Int) (rn rd : Nat) (t0 t1 
       have hE : expireAt (ttlOf cfg ctxTTL rn rd).1 now = now + effTTL cfg ctxTTL := by
         have := (C10_effective_ttl cfg ctxTTL rn rd (by omega) now).2 hne hT'
         exact this
-      simp only [hjo, Bool.false_eq_true, if_false, hE]
+      rw [if_neg (show ¬ cfg.jn > 0 from hjn), hE]
       simp only [Bool.and_eq_true, bne_iff_ne, ne_eq, decide_eq_true_eq]
       generalize effTTL cfg ctxTTL = T at hT' hpos ⊢
       refine ⟨⟨?_, ?_⟩, ?_⟩ <;> omega
